@@ -46,6 +46,19 @@ class MMap:
 
 
 
+VALUE_KEY = [None]  # a rule may say when two modelled objects are the same value: VALUE_KEY[0](v) -> hashable key or None
+
+
+def same_value(x, y):
+    if x is y or x == y:
+        return True
+    kf = VALUE_KEY[0]
+    if kf is not None:
+        kx = kf(x)
+        return kx is not None and kx == kf(y)
+    return False
+
+
 class MSet:
     """a HashSet that is mutated in place (members compared by identity or equality)"""
 
@@ -55,7 +68,7 @@ class MSet:
             self.add(x)
 
     def add(self, x):
-        if not any(x is y or x == y for y in self.items):
+        if not any(same_value(x, y) for y in self.items):
             self.items.append(x)
             return True
         return False
@@ -408,7 +421,7 @@ class PassWorld(World):
             if p in ("Box::new", "Rc::new", "Arc::new") and p not in env:
                 return ("PY", lambda x: x)
             sg0 = p.split("::")
-            if self.lenient_opaque and len(sg0) == 2 and sg0[0][:1].isupper() and sg0[1][:1].islower() and p not in env and (sg0[0], sg0[1]) not in self.methods and sg0[0] not in self.enums and sg0[0] not in self.structs and sg0[0] != "Self":
+            if self.lenient_opaque and len(sg0) == 2 and sg0[0][:1].isupper() and sg0[1][:1].islower() and p not in env and (sg0[0], sg0[1]) not in self.methods and sg0[0] != "Self":
                 def assoc_(*a, p=p, m_=sg0[1]):
                     # `Type::method` applied to (receiver, ..) is `receiver.method(..)` when the receiver is an object the rule models
                     if a and isinstance(a[0], tuple) and len(a[0]) > 2 and a[0][0] == "O":
@@ -441,7 +454,7 @@ class PassWorld(World):
             segs_ = p.split("::")
             if len(segs_) >= 2 and segs_[-2] in SET_TYPES + VEC_TYPES and segs_[-1] in ("from", "from_iter") and len(e["args"]) == 1 and p not in env:
                 a_ = self.eval(e["args"][0], env, uses)
-                items_ = a_.rest() if isinstance(a_, Iter) else (list(a_.items) if isinstance(a_, (MSet, Sink)) else (list(a_[1]) if isinstance(a_, tuple) and a_ and a_[0] == "L" else None))
+                items_ = a_.rest() if isinstance(a_, Iter) else (list(a_.items) if isinstance(a_, (MSet, Sink)) else (list(a_[1]) if isinstance(a_, tuple) and a_ and a_[0] == "L" else ([("T", (k_, v_)) for k_, v_ in a_.pairs] if isinstance(a_, MMap) else None)))
                 if items_ is None:
                     raise Unsupported("%s of %r" % (p, a_))
                 if segs_[-2] in SET_TYPES:
@@ -547,7 +560,7 @@ class PassWorld(World):
                 if m == "is_empty" and not args:
                     return not recv.items
                 if m == "contains" and len(args) == 1:
-                    return any(args[0] is y or args[0] == y for y in recv.items)
+                    return any(same_value(args[0], y) for y in recv.items)
                 if m in ("is_subset", "is_superset", "is_disjoint") and len(args) == 1 and isinstance(args[0], MSet):
                     has = lambda st, x: any(x is y or x == y for y in st.items)  # noqa: E731
                     if m == "is_subset":
@@ -560,7 +573,7 @@ class PassWorld(World):
                     return Iter([x for x in recv.items if inb(x) == (m == "intersection")])
                 if m == "remove" and len(args) == 1:
                     for i_, y in enumerate(recv.items):
-                        if args[0] is y or args[0] == y:
+                        if same_value(args[0], y):
                             del recv.items[i_]
                             return True
                     return False
@@ -570,8 +583,12 @@ class PassWorld(World):
             ret_ = (getattr(self, "_ret_stack", None) or [""])[-1].replace(" ", "")
             if (isinstance(recv, Iter) or (isinstance(recv, tuple) and recv and recv[0] == "L")) and m == "collect" and not e["args"] and ("Result<" in str(e.get("turbofish") or "").replace(" ", "") or (not e.get("turbofish") and "Result<" in ret_ and "Vec<" in ret_ and env.get("__tail_of_fn") is not False)):
                 items_ = recv.rest() if isinstance(recv, Iter) else list(recv[1])
-                if not e.get("turbofish") and not all(isinstance(x, tuple) and len(x) > 2 and x[0] == "S" and x[1] in ("Ok", "Err") for x in items_):
-                    raise Unsupported("collect without a type: the elements are not results")
+                if not e.get("turbofish") and (not all(isinstance(x, tuple) and len(x) > 2 and x[0] == "S" and x[1] in ("Ok", "Err") for x in items_) or (not items_ and not ret_.startswith("Result<Vec<"))):
+                    # an untyped collect in a function that returns a Result of vectors, over elements that are not
+                    # results: a plain vector (e.g. one component of the tuple that is returned)
+                    sk_ = Sink()
+                    sk_.items = list(items_)
+                    return sk_
                 for x in items_:
                     if isinstance(x, tuple) and len(x) > 2 and x[0] == "S" and x[1] == "Err":
                         return x  # the first error wins
@@ -732,10 +749,10 @@ class PassWorld(World):
                     recv.items[:] = keep_
                     return ("T", ())
                 if m in ("sort", "sort_unstable") and not args:
-                    if all(isinstance(x, int) for x in recv.items):
+                    if all(isinstance(x, int) and not isinstance(x, bool) for x in recv.items) or all(isinstance(x, str) for x in recv.items):
                         recv.items.sort()
                         return ("T", ())
-                    raise Unsupported("sort of non-integers")
+                    raise Unsupported("sort of values that are neither all integers nor all strings")
                 if m == "try_into" and not args:
                     # (the repository's only fallible conversion of a vector is into a NonEmptyVec)
                     return S("Ok", recv) if recv.items else S("Err", O("empty-vector"))
@@ -821,6 +838,8 @@ class PassWorld(World):
                         return []
                     if some(x):
                         return [x[2][0]]
+                    if isinstance(x, tuple) and len(x) > 2 and x[0] == "S" and x[1] in ("Ok", "Err"):
+                        return [x[2][0]] if x[1] == "Ok" else []  # a Result iterates over its Ok value
                     raise Unsupported("not a sequence: %r" % (x,))
 
                 if m == "filter_map" and len(args) == 1:
@@ -1045,17 +1064,20 @@ class PassWorld(World):
                 else:
                     env2, bound = dict(env), set()
                 stop = False
+                loop_value = ("T", ())
                 try:
                     self.eval(e["body"], env2, uses)
                 except ContinueEx:
                     pass
-                except BreakEx:
+                except BreakEx as bx:
                     stop = True
+                    if bx.v is not None and k == "Loop":
+                        loop_value = bx.v  # `break value`: the value of the `loop` expression
                 for k_ in env:
                     if k_ not in bound and k_ in env2:
                         env[k_] = env2[k_]
                 if stop:
-                    break
+                    return loop_value
             return ("T", ())
         if k == "For":
             # `for x in &mut v` / `for x in v.iter_mut()` over a vector: `*x = ..` writes the element
